@@ -16,7 +16,7 @@ const ModulePath = "github.com/ovn-org/libovsdb"
 
 // interpreted foreign packages (pure Go, no unsafe on the used paths)
 var interpPkgList = []string{"errors", "sort", "strings", "strconv", "bytes", "unicode", "unicode/utf8", "math", "math/bits",
-	"slices", "maps", "cmp", "container/list", "internal/bytealg", "internal/stringslite", "internal/itoa"}
+	"slices", "maps", "cmp", "container/list", "internal/bytealg", "internal/stringslite", "internal/itoa", "net/url"}
 
 // packages whose bodies must be built although only some functions are interpreted (methods reached through wrappers)
 var buildPkgList = []string{"fmt", "runtime", "context", "encoding/json", "io", "time"}
